@@ -271,6 +271,98 @@ fn c29_clamp_rejects_incompatible_or_mixed_unitless() {
     assert!(clampmock::snippet_clamp(N { value: 1.0, unit: U(1) }, V::NotANumber, V::Numeric(N { value: 3.0, unit: U(1) }, true)).is_err(), "a non-number is an error");
 }
 
+// ---- the "requires unitless input" check of pow / sqrt / log / exp:
+// `math::unitless` and the `check::unitless` it calls, both complete bodies
+// extracted each run, at stand-in Value / Numeric / Number types (a double
+// with a unit tag; the stand-in unit offers `is_none` and `dimension` as the
+// real UnitSet does: `%` and `fr` have a unit but no dimension) and with the
+// error TEXT (`expected_to`, which formats the value through core::fmt)
+// replaced by an empty string.  Cheap enough for ALL doubles, which the
+// harnesses on the real types above are not (attempts). ----
+pub(crate) mod unitlessmock {
+    #[derive(Clone, Copy, PartialEq, Debug)]
+    pub struct Number(pub f64);
+    impl From<Number> for f64 {
+        fn from(n: Number) -> f64 {
+            n.0
+        }
+    }
+    /// tags 0: no unit; 1: %; 2: fr; 3: px
+    #[derive(Clone, Copy, PartialEq, Debug)]
+    pub struct UnitSet(pub u8);
+    impl UnitSet {
+        pub fn is_none(&self) -> bool {
+            self.0 == 0
+        }
+        pub fn dimension(&self) -> Vec<(u8, i8)> {
+            if self.0 == 3 { vec![(1, 1)] } else { vec![] }
+        }
+    }
+    #[derive(Clone, Copy, PartialEq, Debug)]
+    pub struct Numeric {
+        pub value: Number,
+        pub unit: UnitSet,
+    }
+    impl Numeric {
+        pub fn is_no_unit(&self) -> bool {
+            self.unit.is_none()
+        }
+    }
+    #[derive(Clone, Copy, PartialEq, Debug)]
+    pub enum Value {
+        Numeric(Numeric, bool),
+        NotANumber,
+    }
+    impl From<Numeric> for Value {
+        fn from(n: Numeric) -> Value {
+            Value::Numeric(n, true)
+        }
+    }
+    impl TryFrom<Value> for Numeric {
+        type Error = String;
+        fn try_from(v: Value) -> Result<Numeric, String> {
+            match v {
+                Value::Numeric(n, _) => Ok(n),
+                Value::NotANumber => Err(String::new()),
+            }
+        }
+    }
+    fn expected_to<T: Into<Value>>(_value: T, _cond: &str) -> String {
+        String::new()
+    }
+    pub mod check {
+        use super::{Number, Numeric, Value, expected_to};
+//@range file=rsass/src/sass/functions/mod.rs fn=unitless
+//@  header: pub fn unitless(v: Value) -> Result<Number, String>
+//@end
+    }
+//@range file=rsass/src/sass/functions/math.rs fn=unitless
+//@  header: pub fn unitless(value: Value) -> Result<f64, String>
+//@end
+}
+
+/// C29: pow / sqrt / log / exp require unitless input: the argument check
+/// gives the number's value, unchanged, exactly when it has no unit — `%`
+/// and `fr` are units too — and is an error otherwise (all doubles).
+#[kani::proof]
+#[kani::stub(alloc::fmt::format, fmt_stub)]
+#[kani::unwind(5)]
+fn c29_unitless_check_all_doubles() {
+    use unitlessmock::{Number, Numeric, UnitSet, Value};
+    let x: f64 = kani::any();
+    let u: u8 = kani::any();
+    kani::assume(u <= 3);
+    let r = unitlessmock::unitless(Value::Numeric(Numeric { value: Number(x), unit: UnitSet(u) }, true));
+    match r {
+        Ok(v) => {
+            assert!(u == 0, "a number with a unit (also % and fr) is rejected");
+            assert!(v.to_bits() == x.to_bits(), "the value is passed on unchanged");
+        }
+        Err(_) => assert!(u != 0, "a number without unit is accepted"),
+    }
+    assert!(unitlessmock::unitless(Value::NotANumber).is_err(), "a non-number is rejected");
+}
+
 // ---- math.clamp: the complete closure body, extracted each run.  Listed
 // (regex) substitutions, argument fetches only: `s.get::<Numeric>(name!(min))?`
 // -> the Numeric parameter, `s.get_map(name!(x), check_numeric_compat_unit)?`
